@@ -1,4 +1,4 @@
-import OrdModel.Proofs.IndexFlagsIns
+import OrdModel.Proofs.IndexFlagsChain
 import OrdModel.Proofs.IndexFlagsWitness
 import OrdModel.Index.Valid
 /-
@@ -31,10 +31,16 @@ signet (`harness/flagsx`, corpus/C15/signet.s1.txt and signet.s2.txt):
   height (signet: 0 < 112402) an index without sat and address index never sees the
   transactions of the blocks in between, so runes etched there exist only with those indexes.
 
-What is proved in general (every transaction, every state, no bound on anything):
-`c15_transaction_step` — one transaction of the inscription updater commutes with erasing what
-the optional indexes add; `c15_charms_independent_of_sat` — the non-sat charm bits of a new
-inscription do not depend on whether its sat is known.
+What is proved (no bound on chains, blocks, transactions, values):
+`c15_partial` — for a first inscription height of 0 (regtest, testnet4) and inscriptions indexed
+the full statement holds: any two configurations differing only in the three optional indexes
+that both index a chain end with equal `projInsRunes` (hypotheses: `BlockShape` of the blocks and
+`NullStableFrom`, an instance of C04's invariant that is vacuous without the sat index and
+decidable on a given chain).  Stages: `c15_transaction_step` (one transaction of the
+inscription updater commutes with erasing what the optional indexes add),
+`c15_block_step_partial` (one block incl. LostSats accounting and commit),
+`c15_charms_independent_of_sat`, `c15_projection_of_erased`.
+Not covered: inscriptions off (rune results only) — rests on the correspondence streams.
 -/
 namespace Ord.Index
 open Outcome
@@ -70,6 +76,68 @@ theorem c15_projection_of_erased (u : List (OutPoint × UtxoEntry)) (st : State)
   apply List.map_congr_left
   intro e _
   simp [projEntry, stripEntry, nonSatCharms_idem]
+
+/-- Stage (b), one block (`Updater::index_block` + `commit`), inscriptions indexed from height 0:
+if `applyBlock cfg st blk` succeeds and `st₀ = stripW u₀ st` is the erased state whose UTXO table
+`u₀` is related to `st.utxo` (`UtxoRel`: real outpoints carry total value + inscription list of
+the corresponding entry, the two special outpoints the same inscription lists), then
+`applyBlock cfg.base` succeeds on the erased state with the erased result, again related.
+Hypotheses: `BlockShape` (first transaction is the coinbase, no other input with the all-zero
+txid, no all-zero txid — all implied by a consensus-valid block) and, only with the sat index
+on, `NullRowsStable` (an instance of C04's invariant, see notes/C15.md). -/
+theorem c15_block_step_partial (cfg : Cfg) (hi : cfg.indexInscriptions = true) (hf : cfg.firstInscriptionHeight = 0)
+    (st : State) (u₀ : List (OutPoint × UtxoEntry)) (blk : Block) (st' : State) (evs : List Event)
+    (hshape : BlockShape blk = true) (R : UtxoRel cfg st.utxo u₀)
+    (hnull : cfg.indexSats = true → NullRowsStable cfg st blk)
+    (h : applyBlock cfg st blk = .ok (st', evs)) :
+    ∃ u₀' evs₀, applyBlock cfg.base (stripW u₀ st) blk = .ok (stripW u₀' st', evs₀) ∧ UtxoRel cfg st'.utxo u₀' :=
+  applyBlock_sim cfg hi hf st u₀ blk st' evs hshape R hnull h
+
+/-- **C15 for chains whose first inscription height is 0** (regtest, testnet4), inscriptions
+indexed: two configurations that differ only in the sat / address / transaction indexes and
+both index the chain successfully end with the same inscription and rune results.  Stage (c):
+both runs are simulated by the run of their common base configuration.
+Hypotheses beyond the statement: `BlockShape` of every block (implied by validity) and
+`NullStableFrom` for each configuration — vacuous for a configuration without the sat index
+(`c15_nullStable_of_noSats`), decidable on any given chain (`c15_nullStable_decidable`), and an
+instance of C04's invariant `InsPartitioned` ("listed at an outpoint ⇒ satpoint row there"). -/
+theorem c15_partial (cfg cfg' : Cfg) (hsame : SameUpToOptionalIndexes cfg cfg')
+    (hi : cfg.indexInscriptions = true) (hf : cfg.firstInscriptionHeight = 0)
+    (chain : List Block) (hs : ∀ b ∈ chain, BlockShape b = true)
+    (hn : NullStableFrom cfg {} chain) (hn' : NullStableFrom cfg' {} chain)
+    (st st' : State) (evs evs' : List Event)
+    (h : run cfg chain = .ok (st, evs)) (h' : run cfg' chain = .ok (st', evs')) :
+    projInsRunes st = projInsRunes st' := by
+  have hi' : cfg'.indexInscriptions = true := hsame.1 ▸ hi
+  have hf' : cfg'.firstInscriptionHeight = 0 := hsame.2.2.1 ▸ hf
+  obtain ⟨u, e, r⟩ := run_sim cfg hi hf chain st evs hs hn h
+  obtain ⟨u', e', r'⟩ := run_sim cfg' hi' hf' chain st' evs' hs hn' h'
+  rw [base_eq_of_same hsame, r'] at r
+  simp only [Outcome.ok.injEq, Prod.mk.injEq] at r
+  rw [← c15_projection_of_erased u st, ← c15_projection_of_erased u' st', r.1]
+
+/-- the extra hypothesis is vacuous without the sat index … -/
+theorem c15_nullStable_of_noSats (cfg : Cfg) (hs : cfg.indexSats = false) (chain : List Block) (st : State) :
+    NullStableFrom cfg st chain := nullStableFrom_of_noSats cfg hs chain st
+
+/-- … and decidable on a given chain -/
+theorem c15_nullStable_decidable (cfg : Cfg) (chain : List Block) (st : State)
+    (h : nullStableFromB cfg st chain = true) : NullStableFrom cfg st chain := nullStableFromB_sound cfg chain st h
+
+/-- With first inscription height 0 and inscriptions indexed, every configuration sees the whole
+chain (`first_index_height = 0`), so `c15_partial` is also a statement about `runSeen`. -/
+theorem c15_seen_is_run (cfg : Cfg) (hi : cfg.indexInscriptions = true) (hf : cfg.firstInscriptionHeight = 0)
+    (chain : List Block) : runSeen cfg chain = run cfg chain := by
+  unfold runSeen
+  congr 1
+  have : ∀ b : Block, fetchView cfg b = b := by
+    intro b
+    unfold fetchView Cfg.firstIndexHeight
+    by_cases h1 : (cfg.indexSats || cfg.indexAddresses) = true
+    · simp [h1]
+    · simp [h1, hi, hf]
+  have hid : fetchView cfg = id := funext this
+  rw [hid, List.map_id]
 
 /-! ## The two counterexamples -/
 
@@ -131,6 +199,17 @@ theorem c15_fails_runes_below_first_index_height :
   exact absurd e1 (by decide)
 
 /-! ## Non-vacuity -/
+
+/-- `c15_partial` applies (all hypotheses hold, sat index on vs off) to the witness chain read
+with first inscription height 0: there the two runs agree — the lost inscription is at
+`null:1000` in both. -/
+def w0Cfg (sats : Bool) : Cfg := ⟨sats, false, false, true, false, 0, 0, 0⟩
+example : SameUpToOptionalIndexes (w0Cfg true) (w0Cfg false) ∧ (∀ b ∈ w1Chain, BlockShape b = true) ∧
+    NullStableFrom (w0Cfg true) {} w1Chain ∧ NullStableFrom (w0Cfg false) {} w1Chain ∧
+    (stateAfter' (run (w0Cfg true) w1Chain)).map (fun st => (projInsRunes st).seq2sp) = some [(0, ⟨OutPoint.null, 1000⟩)] ∧
+    (stateAfter' (run (w0Cfg false) w1Chain)).map (fun st => (projInsRunes st).seq2sp) = some [(0, ⟨OutPoint.null, 1000⟩)] :=
+  ⟨⟨rfl, rfl, rfl, rfl, rfl⟩, by decide, c15_nullStable_decidable _ _ _ (by decide),
+    c15_nullStable_of_noSats _ rfl _ _, by decide, by decide⟩
 
 example : (w1Chain.map BlockShape).all id = true := by decide
 example : (w1Cfg true).base = w1Cfg false := rfl
